@@ -8,21 +8,21 @@ CHECKS = {
    technique="Lean 4 proof (loop invariant + token-prefix lemma) about a hand model of nameMatch, tied by exhaustive+random differential correspondence",
    text="Theorems nameMatch_eq_spec (all well-formed descriptor lists and names: model = Recommendation 3.12.1) and scanner_visits_every_descriptor (all byte strings) are kernel-checked on every run; the model is the transliteration of uscxml::nameMatch and is compared with the compiled matcher and with the copy cut out of test-gen-c.cpp on every (list, name) over 'ab.* ' up to a length bound and on random structured/arbitrary inputs. The matches the Promela and VHDL back-ends resolve at transform time (prefix trie over the document's event names) are read out of the emitted text and compared with the Recommendation's relation (suite static-resolution; translation validation, the trie is not modelled).",
    design_ref="6 / C12",
-   note="Trusted: Lean kernel, axioms propext/Classical.choice/Quot.sound at most, the hand model (validated exhaustively on the small alphabet, sampled beyond), C-locale isspace. Static resolution in Promela/VHDL output (Trie) is covered by the trie suite of this check."),
+   note="Trusted: Lean kernel, axioms propext/Classical.choice/Quot.sound at most, the hand model (validated exhaustively on the small alphabet, sampled beyond), C-locale isspace. Static resolution in Promela/VHDL output is validated on the emitted text (suite static-resolution)."),
 }
 ENGINE_NOTE = "Trusted: the hand models Model.Large/Model.Fast/Model.Exec and the transcription Spec.W3C of Appendix D (tied to the compiled interpreter by the differential suites on the full monitor alphabet), Xerces, the null datamodel; executable content fragment: raise/send/log/if/failing send; no invoke, no delayed send."
 CHECKS.update({
  "C01": dict(category="exploration",
-   technique="three-way differential: compiled interpreter = Lean model of LargeMicroStep = Lean transcription of W3C Appendix D (Lean theorems about the model: in progress)",
-   text="Every input must satisfy I = Model.Large on the full monitor alphabet and abs(I) = Spec.W3C.run (Appendix D); inputs in the two recorded finding classes must follow the specification with exactly the documented quirk. Seeded random charts + corpus of witnesses of the eight repaired defects. No unbounded theorem yet connects Model.Large with Spec.W3C, hence 'exploration' and not 'proof'.",
+   technique="three-way differential: compiled interpreter = Lean model of LargeMicroStep = Lean transcription of W3C Appendix D; Lean theorems about the model for one clause of the algorithm (pre-emption) and for the numbering the engines rely on",
+   text="Every input must satisfy I = Model.Large on the full monitor alphabet and abs(I) = Spec.W3C.run (Appendix D); inputs in the two recorded finding classes must follow the specification with exactly the documented quirk. Exhaustive small charts, seeded random charts, corpus of witnesses of repaired defects. Proved (Lean, every well-formed document, any size): the set of transitions LargeMicroStep selects is conflict-free in Appendix D's sense (selection_conflict_free_w3c_of_document), the engine's transition domain is Appendix D's, descendants are document-order intervals (desc_interval, intervalOK_flatten). The refinement of the whole step (Model.Large = Spec.W3C) is not proved, hence 'exploration' and not 'proof'.",
    design_ref="6 / C01", note=ENGINE_NOTE),
  "C02": dict(category="exploration",
-   technique="Spec.Legal.legal (Lean, decidable) evaluated on every configuration both compiled engines report; invariant proof about the model in progress",
-   text="Every configuration reported after every step() of both engines is checked against Recommendation 3.11 by the Lean predicate; root entered once and never exited; one recorded finding class (nested history).",
+   technique="Spec.Legal.legal (Lean, decidable) evaluated on every configuration both compiled engines report; Lean invariant for two of the six clauses of legality",
+   text="Every configuration reported after every step() of both engines is checked against Recommendation 3.11 by the Lean predicate; root entered once and never exited; one recorded finding class (nested history). Proved for every chart and every operation sequence on both engine models: the configuration is strictly ascending, duplicate-free and free of pseudo-states (configuration_is_a_set_of_real_states_partial); the four structural clauses are exploration only.",
    design_ref="6 / C02", note=ENGINE_NOTE),
  "C03": dict(category="exploration",
-   technique="direct differential of the two compiled engines on the full observation alphabet + each against its Lean model",
-   text="Large and Fast engines run the same charts/histories; traces (monitor notifications, logs, step() results, configurations) must be identical, and each equals its Lean model.",
+   technique="direct differential of the two compiled engines on the full observation alphabet + each against its Lean model; Lean theorems that hold of both engine models alike",
+   text="Large and Fast engines run the same charts/histories; traces (monitor notifications, logs, step() results, configurations) must be identical, and each equals its Lean model. Proved of both models alike: conflict-free selection (in Appendix D's terms on well-formed documents), the configuration invariant, well-nested notifications (C13); trace equality itself is exploration.",
    design_ref="6 / C03", note=ENGINE_NOTE),
  "C13": dict(category="proof",
    technique="Lean theorem (invariant by induction over API operations, structural induction over executable content) that the notification stream of both engine models is accepted by the nesting automaton Spec.Nesting; the models are tied to the compiled engines by trace equality and the same automaton (compiled from Lean) is run over every real trace",
